@@ -1,9 +1,45 @@
 (* Props/C07.v -- property theorems for C07 (styled-run extraction follows standard
    SGR semantics).  Only statements, each closed by [exact]. *)
 From Coq Require Import NArith List Bool.
-From AV Require Import Generated.Table Spec.Vt Spec.Sgr Model.Base Model.Parser Model.Wincon Proofs.TableFacts.
+From AV Require Import Generated.Table Spec.Vt Spec.Sgr Model.Base Model.Parser Model.Wincon
+  Proofs.TableFacts Proofs.WinconSgr.
 Import ListNotations.
 Local Open Scope N_scope.
+
+(* for every rendition state and every list of attribute groups of the grammar G
+   (single codes, 4:n, 38/48/58 in the ';' and ':' spellings, components <= 255),
+   under the underline-interaction hypothesis, the adapter's decoder computes
+   exactly what a conforming terminal does (Spec/Sgr.sgr_apply) and never panics *)
+Theorem c07_dispatch_is_sgr :
+  forall items s,
+  Forall (fun i => item_in_G i = true) items -> ul_simple s items ->
+  sgr_dispatch s (groups_of items) = Some (sgr_apply s (groups_of items)).
+Proof. exact dispatch_is_sgr. Qed.
+
+(* attributes combined in one sequence = the same attributes sent in separate sequences *)
+Theorem c07_combined_eq_separate :
+  forall a b s,
+  Forall (fun i => item_in_G i = true) a -> Forall (fun i => item_in_G i = true) b -> ul_simple s (a ++ b) ->
+  sgr_dispatch s (groups_of (a ++ b)) =
+  match sgr_dispatch s (groups_of a) with
+  | Some s1 => sgr_dispatch s1 (groups_of b)
+  | None => None
+  end.
+Proof. exact combined_eq_separate. Qed.
+
+(* codes without a representation in the style type change nothing (every code
+   from 108 up; the codes below are covered case by case in c07_dispatch_is_sgr) *)
+Theorem c07_unknown_codes_inert :
+  forall s r g t c, 108 <= c -> code_goal s r g t c.
+Proof. exact code_large. Qed.
+
+(* non-vacuity: a sequence mixing all forms, applied to a style that already has a
+   curly underline *)
+Theorem c07_example :
+  sgr_dispatch (mkStyle None None None 32)
+    (groups_of [GCode 1; GUl 3; GIdx false 38 9; GRgb true 48 1 2 3; GCode 0; GCode 21; GCode 93; GIdx true 58 200])
+  = Some (mkStyle (Some (CAnsi 11)) None (Some (CIdx 200)) 16).
+Proof. vm_compute. reflexivity. Qed.
 
 Theorem c07_table_is_williams :
   forall s b, b < 256 -> trans_matches s b = true.
